@@ -19,7 +19,9 @@ func gen(r *h.Rand, tier string, emit func([]string)) {
 	points := []string{"fields.tmpWritten", "fields.renamed", "fields.renamed", "fields.idxRemoved"}
 	for c := 0; c < n; c++ {
 		g := shardh.NewG(r)
-		g.Meas = [][]string{{"cpu", "mem"}, {"m"}, {"cpu", "mem", "m3"}}[r.Intn(3)]
+		// measurement names that are strict prefixes of each other: every scan "does any
+		// key of this measurement remain?" must respect the name boundary
+		g.Meas = [][]string{{"cpu", "cpu_idle"}, {"m", "m1", "m_x"}, {"cpu", "mem", "m3"}, {"m1", "m10", "m"}, {"cpu", "cpu2", "mem"}}[r.Intn(5)]
 		g.Fields = [][]string{{"a", "b"}, {"a", "b", "c", "v"}, {"v"}}[r.Intn(3)]
 		// a sentinel series that is never dropped: Engine.deleteSeriesRange returns
 		// early (without touching index or field set) when the engine holds nothing
@@ -56,6 +58,9 @@ func gen(r *h.Rand, tier string, emit func([]string)) {
 				ops = append(ops, batch())
 			case x < 48:
 				m := h.Pick(r, g.Meas)
+				if r.Chance(0.5) { // the siblings' data sits in a TSM file when the drop runs
+					ops = append(ops, "snap")
+				}
 				ops = append(ops, "drop "+m)
 				forget(m)
 				if r.Chance(0.6) { // re-create, probably with other types
@@ -100,6 +105,11 @@ func gen(r *h.Rand, tier string, emit func([]string)) {
 	emit([]string{"crashopen fields.idxRemoved", "w zz|-|s:i:1|0", "w m|h=a|f:i:1|10", "reopen", "drop m", "w k|h=a|g:i:1|20", "drop k",
 		"w k|h=a|g:f:3ff0000000000000|30", "w m|h=a|f:i:2|40", "crashopen fields.renamed", "f",
 		"w m|h=a|f:f:3ff0000000000000|50", "crashopen fields.tmpWritten", "reopen"})
+	// a sibling whose name has the dropped name as a strict prefix, already in a TSM file
+	emit([]string{"w cpu|h=a|v:f:3ff0000000000000|1 cpu_idle|h=a|v:f:3ff0000000000000|1", "snap",
+		"w cpu|h=a|v:i:1|2", "drop cpu", "w cpu|h=a|v:i:2|3", "reopen", "w cpu|h=a|v:f:3ff0000000000000|4", "crash", "f"})
+	emit([]string{"w m1|-|a:i:1|1 m10|-|a:i:1|1 m|-|a:i:1|1", "reopen", "drop m1", "w m1|-|a:b:1|2", "drop m", "w m|-|a:s:3x2|3",
+		"snap", "drop m10", "w m10|-|a:u:7|4", "crashclose fields.renamed", "f"})
 	// drop, then unclean restart, then the other type
 	emit([]string{"w cpu|h=a|v:i:1|10 mem|h=a|v:i:2|20", "reopen", "drop cpu", "crash",
 		"w cpu|h=a|v:f:3ff0000000000000|30", "crash", "f"})
